@@ -276,7 +276,10 @@ def classify_stderr(err, rc):
         return "ubsan:" + _words(err[i + 15:], 4)
     i = err.find("ERROR: AddressSanitizer: ")
     if i >= 0:
-        tok = re.split(r"[ \n]", err[i + 25:], 1)[0]
+        rest = err[i + 25:]
+        if rest.startswith("attempting "):
+            rest = rest[11:]
+        tok = re.split(r"[ \n]", rest, 1)[0]
         return "asan:" + re.sub(r"[^A-Za-z0-9_\-]", "_", tok)
     if "SIM-HANG" in err:
         return "hang"
